@@ -2,3 +2,214 @@
 //!
 //! Thin, add-only wrappers that expose crate-private machinery to the external
 //! verification harness in `/verif`. Nothing in here is used by the crate itself.
+
+use std::collections::{BTreeMap, HashMap};
+
+use crate::{
+    circuit::{
+        CachedPanicResult, Circuit, CircuitBuilder, CircuitBuilderOptions, GateIndex, PanicReason,
+        PanicResult,
+    },
+    env::Env,
+    token::MetaInfo,
+};
+
+/// Wrapper around the crate-private `CircuitBuilder`.
+#[derive(Debug, Clone)]
+pub struct Builder(pub(crate) CircuitBuilder);
+
+/// Wrapper around the crate-private `CachedPanicResult` (panic record + its cache).
+#[derive(Debug, Clone)]
+pub struct PanicState(pub(crate) CachedPanicResult);
+
+impl PanicState {
+    /// The 161 wires of the record, in output order.
+    pub fn wires(&self) -> Vec<GateIndex> {
+        panic_wires(self.0.result_for_hooks())
+    }
+
+    /// The cache of the record as (condition wire, 161 record wires), sorted by condition.
+    pub fn cache(&self) -> Vec<(GateIndex, Vec<GateIndex>)> {
+        let mut v: Vec<_> = self
+            .0
+            .cache_for_hooks()
+            .iter()
+            .map(|(k, r)| (*k, panic_wires(r)))
+            .collect();
+        v.sort();
+        v
+    }
+}
+
+fn panic_wires(r: &PanicResult) -> Vec<GateIndex> {
+    let mut v = vec![r.has_panicked];
+    v.extend(r.panic_type.iter());
+    v.extend(r.start_line.iter());
+    v.extend(r.start_column.iter());
+    v.extend(r.end_line.iter());
+    v.extend(r.end_column.iter());
+    v
+}
+
+impl Builder {
+    /// `CircuitBuilder::new` with the given party sizes and `cache_gates` option.
+    pub fn new(input_gates: Vec<usize>, cache_gates: bool) -> Self {
+        Builder(CircuitBuilder::new(
+            input_gates,
+            HashMap::new(),
+            CircuitBuilderOptions { cache_gates },
+        ))
+    }
+    /// `CircuitBuilder::push_xor`
+    pub fn push_xor(&mut self, x: GateIndex, y: GateIndex) -> GateIndex {
+        self.0.push_xor(x, y)
+    }
+    /// `CircuitBuilder::push_and`
+    pub fn push_and(&mut self, x: GateIndex, y: GateIndex) -> GateIndex {
+        self.0.push_and(x, y)
+    }
+    /// `CircuitBuilder::push_not`
+    pub fn push_not(&mut self, x: GateIndex) -> GateIndex {
+        self.0.push_not(x)
+    }
+    /// `CircuitBuilder::push_or`
+    pub fn push_or(&mut self, x: GateIndex, y: GateIndex) -> GateIndex {
+        self.0.push_or(x, y)
+    }
+    /// `CircuitBuilder::push_eq`
+    pub fn push_eq(&mut self, x: GateIndex, y: GateIndex) -> GateIndex {
+        self.0.push_eq(x, y)
+    }
+    /// `CircuitBuilder::push_eq_circuit`
+    pub fn push_eq_circuit(&mut self, x: &[GateIndex], y: &[GateIndex]) -> GateIndex {
+        self.0.push_eq_circuit(x, y)
+    }
+    /// `CircuitBuilder::push_mux`
+    pub fn push_mux(&mut self, s: GateIndex, x0: GateIndex, x1: GateIndex) -> GateIndex {
+        self.0.push_mux(s, x0, x1)
+    }
+    /// `CircuitBuilder::push_adder`
+    pub fn push_adder(&mut self, x: GateIndex, y: GateIndex, c: GateIndex) -> (GateIndex, GateIndex) {
+        self.0.push_adder(x, y, c)
+    }
+    /// `CircuitBuilder::push_multiplier`
+    pub fn push_multiplier(
+        &mut self,
+        x: GateIndex,
+        y: GateIndex,
+        z: GateIndex,
+        c: GateIndex,
+    ) -> (GateIndex, GateIndex) {
+        self.0.push_multiplier(x, y, z, c)
+    }
+    /// `CircuitBuilder::push_addition_circuit`
+    pub fn push_addition_circuit(
+        &mut self,
+        x: &[GateIndex],
+        y: &[GateIndex],
+    ) -> (Vec<GateIndex>, GateIndex, GateIndex) {
+        self.0.push_addition_circuit(x, y)
+    }
+    /// `CircuitBuilder::push_negation_circuit`
+    pub fn push_negation_circuit(&mut self, x: &[GateIndex]) -> Vec<GateIndex> {
+        self.0.push_negation_circuit(x)
+    }
+    /// `CircuitBuilder::push_subtraction_circuit`
+    pub fn push_subtraction_circuit(
+        &mut self,
+        x: &[GateIndex],
+        y: &[GateIndex],
+        is_signed: bool,
+    ) -> (Vec<GateIndex>, GateIndex) {
+        self.0.push_subtraction_circuit(x, y, is_signed)
+    }
+    /// `CircuitBuilder::push_unsigned_division_circuit`
+    pub fn push_unsigned_division_circuit(
+        &mut self,
+        x: &[GateIndex],
+        y: &[GateIndex],
+    ) -> (Vec<GateIndex>, Vec<GateIndex>) {
+        self.0.push_unsigned_division_circuit(x, y)
+    }
+    /// `CircuitBuilder::push_signed_division_circuit`
+    pub fn push_signed_division_circuit(
+        &mut self,
+        x: &mut [GateIndex],
+        y: &mut [GateIndex],
+    ) -> (Vec<GateIndex>, Vec<GateIndex>) {
+        self.0.push_signed_division_circuit(x, y)
+    }
+    /// `CircuitBuilder::push_gt_circuit`
+    pub fn push_gt_circuit(&mut self, bits: usize, x: &[GateIndex], y: &[GateIndex]) -> GateIndex {
+        self.0.push_gt_circuit(bits, x, y)
+    }
+    /// `CircuitBuilder::push_comparator_circuit`
+    pub fn push_comparator_circuit(
+        &mut self,
+        bits: usize,
+        x: &[GateIndex],
+        is_x_signed: bool,
+        y: &[GateIndex],
+        is_y_signed: bool,
+    ) -> (GateIndex, GateIndex) {
+        self.0
+            .push_comparator_circuit(bits, x, is_x_signed, y, is_y_signed)
+    }
+    /// `CircuitBuilder::push_condswap`
+    pub fn push_condswap(&mut self, s: GateIndex, x: GateIndex, y: GateIndex) -> (GateIndex, GateIndex) {
+        self.0.push_condswap(s, x, y)
+    }
+    /// `CircuitBuilder::push_sorter`
+    pub fn push_sorter(
+        &mut self,
+        bits: usize,
+        x: &[GateIndex],
+        y: &[GateIndex],
+    ) -> (Vec<GateIndex>, Vec<GateIndex>) {
+        self.0.push_sorter(bits, x, y)
+    }
+    /// `CircuitBuilder::push_bitonic_merger`
+    pub fn push_bitonic_merger(&mut self, bits: usize, ascending: bool, v: &mut [Vec<GateIndex>]) {
+        self.0.push_bitonic_merger(bits, ascending, v)
+    }
+    /// `CircuitBuilder::push_bitonic_sorter`
+    pub fn push_bitonic_sorter(&mut self, bits: usize, v: &mut [Vec<GateIndex>]) {
+        self.0.push_bitonic_sorter(bits, v)
+    }
+    /// `CircuitBuilder::push_panic_if`
+    pub fn push_panic_if(&mut self, cond: GateIndex, reason: PanicReason, meta: MetaInfo) {
+        self.0.push_panic_if(cond, reason, meta)
+    }
+    /// `CircuitBuilder::peek_panic` (cloned)
+    pub fn peek_panic(&self) -> PanicState {
+        PanicState(self.0.peek_panic().clone())
+    }
+    /// `CircuitBuilder::replace_panic_with`
+    pub fn replace_panic_with(&mut self, p: PanicState) -> PanicState {
+        PanicState(self.0.replace_panic_with(p.0))
+    }
+    /// `CircuitBuilder::mux_panic`
+    pub fn mux_panic(&mut self, cond: GateIndex, t: &PanicState, f: &PanicState) -> PanicState {
+        PanicState(self.0.mux_panic(cond, &t.0, &f.0))
+    }
+    /// `CircuitBuilder::mux_envs` on environments given as scopes of (name, wires)
+    pub fn mux_envs(
+        &mut self,
+        cond: GateIndex,
+        a: Vec<Vec<(String, Vec<GateIndex>)>>,
+        b: Vec<Vec<(String, Vec<GateIndex>)>>,
+    ) -> Vec<Vec<(String, Vec<GateIndex>)>> {
+        let to_env = |v: Vec<Vec<(String, Vec<GateIndex>)>>| {
+            Env(v
+                .into_iter()
+                .map(|s| s.into_iter().collect::<BTreeMap<_, _>>())
+                .collect())
+        };
+        let r = self.0.mux_envs(cond, to_env(a), to_env(b));
+        r.0.into_iter().map(|s| s.into_iter().collect()).collect()
+    }
+    /// `CircuitBuilder::build`
+    pub fn build(self, outputs: Vec<GateIndex>) -> Circuit {
+        self.0.build(outputs)
+    }
+}
